@@ -245,3 +245,100 @@ def b_engine(job):
             "stats": dict(stats, answers=answers)}
 
 B.BUILDERS["engine"] = b_engine
+
+# ---------------------------------------------------------------- MainSolver_Trace (frame machine)
+def convert_frames(tb, hook_events, sid, cfg, kind, stats):
+    """hook events -> events of spec/trace/MainSolver_Trace.tla"""
+    rd = TermReader(tb)
+    out = [{"e": "Run", "sid": sid, "cfg": cfg, "kind": kind}]
+    stack = [[]]           # mirror of the assertion stack (term ids), only to ask for candidate models
+    pending_solved = False
+    nframe_since_check = 0
+    for ev in hook_events[:MAX_EVENTS * 4]:
+        e = ev.get("e")
+        try:
+            if e == "push":
+                stack.append([]); out.append({"e": "push"})
+            elif e == "pop":
+                if len(stack) > 1: stack.pop()
+                out.append({"e": "pop"})
+            elif e == "insert" and "t" in ev:
+                t = rd.read(ev["t"])
+                stack[-1].append(t)
+                out.append({"e": "insert", "level": ev["level"], "fid": ev["fid"], "t": t})
+            elif e == "frame":
+                out.append({"e": "frame", "idx": ev["idx"], "id": ev["id"]})
+                nframe_since_check += 1
+                stats["frames"] = stats.get("frames", 0) + 1
+            elif e == "give":
+                try:
+                    root = rd.read(ev["root"])
+                except SmtError:
+                    root = 0          # opaque for the frame machine
+                out.append({"e": "give", "id": ev["id"], "root": root})
+            elif e == "check":
+                c = {"e": "check", "ret": ev["ret"], "early": bool(ev.get("early")), "solved": bool(ev.get("solved", False)),
+                     "ok": bool(ev.get("ok", True)), "level": ev["level"], "cf": ev.get("conflictFrame", 0), "h": []}
+                stats["checks"] = stats.get("checks", 0) + 1
+                if c["early"]:
+                    stats["early"] = stats.get("early", 0) + 1
+                if ev["ret"] == "unsat" and not c["early"]:
+                    # frames k.. get flagged: candidate model of the assertions of frames 0..k
+                    k = c["cf"] if c["solved"] else None
+                    if k is None:
+                        # simplifyFormulas stopped at the last frame it reported
+                        k = next((x["idx"] for x in reversed(out) if x.get("e") == "frame"), 0)
+                    if k < len(stack) - 1:
+                        stats["flag_below_top"] = stats.get("flag_below_top", 0) + 1
+                    pre = [t for fr in stack[:k + 1] for t in fr]
+                    if pre and tb.max_abs(pre) <= C.MAXNUM and len(pre) <= 14:
+                        m = C.Hints(tb, rd.decl_cmds()).model_for(pre, {})
+                        if m is not None and C.model_small(tb, m):
+                            c["h"] = [m]
+                            stats["flag_candidates"] = stats.get("flag_candidates", 0) + 1
+                out.append(c)
+                nframe_since_check = 0
+        except SmtError as ex:
+            stats["unreadable_terms"] = stats.get("unreadable_terms", 0) + 1
+            return None
+    return out
+
+def b_frames(job):
+    """C04 (frame machine): incremental histories run with the hooks on, replayed through MainSolver.tla"""
+    rng = random.Random(job["seed"])
+    g = G.Gen(rng, job["logic"])
+    mode = job.get("mode", "random")
+    if mode == "cnf":
+        body = B.cnf_history(g, rng, n_atoms=job.get("n_atoms", 6), levels=job.get("levels", 5))
+    elif mode == "unsatbiased":
+        body = B.unsat_biased_body(g, rng, p_named=0.0, nested=False, n_named=job.get("n", 6), n_atoms=job.get("n_atoms", 4))
+    else:
+        body = G.random_history(g, rng, n_assert=job.get("n_assert", 7), fdepth=2, n_atoms=job.get("n_atoms", 5), min_checks=3)
+    tb = g.tb
+    events, texts, answers, stats, nruns = [], [], [], {}, 0
+    for cfg in job.get("cfgs", ["c0"]):
+        opts = []
+        for c in cfg.split("+"):
+            opts += B.CONFIGS[c]
+        text = G.render_script(G.preamble(g, opts) + body, tb, markers=False)
+        res, hev = run_hooked(text, timeout=job.get("timeout", 8))
+        if res["status"] is None or len(hev) > MAX_EVENTS * 4:
+            stats["timeouts"] = stats.get("timeouts", 0) + 1
+            continue
+        evs = convert_frames(tb, hev, "s", cfg, "main", stats)
+        if evs is None:
+            continue
+        evs.append({"e": "Exit", "status": res["status"]})
+        events += evs
+        nruns += 1
+        texts.append({"sid": "s", "cfg": cfg, "kind": "main", "io": "file", "text": text, "out": res["out"][:2000],
+                      "status": res["status"], "sig": res["sig"]})
+        answers += [x for x in res["out"].split() if x in ("sat", "unsat", "unknown")]
+    tb.true(); tb.false()
+    fam = [{"e": "Fam", "tt": tb.recs, "dom": []}]
+    sample = {"builder": "frames", "logic": job["logic"], "seed": job["seed"], "script": texts[0]["text"][:1200] if texts else "",
+              "answers": answers[:8], "stats": dict(stats)}
+    return {"events": fam + events, "runs": nruns, "sample": sample, "nontrivial": stats.get("checks", 0) > 1 and stats.get("frames", 0) > 0,
+            "texts": texts, "stats": dict(stats, answers=answers)}
+
+B.BUILDERS["frames"] = b_frames
